@@ -812,6 +812,11 @@ func snap(sb *strings.Builder, v reflect.Value, depth int) {
 		}
 		sb.WriteByte(')')
 	default:
+		if !v.CanInterface() {
+			// (an unexported field: its kind and value, read through reflection)
+			fmt.Fprintf(sb, "%s:%v", v.Type(), v)
+			return
+		}
 		fmt.Fprintf(sb, "%T:%v", v.Interface(), v.Interface())
 	}
 }
@@ -891,6 +896,10 @@ func shapeOfKind(kind string) interface{} {
 	case "nilerrptr":
 		var er error
 		return &er
+	case "zerotimeptr": // a pointer to the zero time (an unset *time.Time)
+		return &time.Time{}
+	case "zerotimeholder":
+		return map[string]interface{}{"at": &time.Time{}, "n": 1}
 	case "ptrself": // a defined pointer type that points at itself (no interface in between)
 		var q selfPtr
 		q = &q
